@@ -2161,4 +2161,56 @@ theorem C08_no_negative_stat (f : Facts) {s : State} (h : MetaOK s) (op : Op) (h
   | vmRemove v force moves => exact (vmRemove_nopanic h v force moves hs hp).elim
 
 
+/-! ## the repaired tree (`stepF`) -/
+
+theorem unalias_ok {s : State} (h : MetaOK s) : MetaOK (unalias s) :=
+  metaOK_frame h rfl rfl rfl rfl rfl rfl (fun _ hx => hx)
+
+theorem fixCache_ok (f : Facts) {s : State} (h : MetaOK s) : MetaOK (fixCache f s) := by
+  simp only [fixCache]; split
+  · exact unalias_ok h
+  · exact h
+
+/-- under the invariant the conditional rollback and the unconditional one coincide (the slot of a
+writer in flight still holds its sector) -/
+theorem finishChecked_eq {s : State} (h : MetaOK s) (w : Nat) (ok : Bool) : finishChecked s w ok = finish s w ok := by
+  simp only [finishChecked]
+  split
+  · rename_i hp; simp [finish, hp]
+  rename_i p hp
+  obtain ⟨hpm, _⟩ := findPending_spec hp
+  obtain ⟨sl, hs, hsec⟩ := h.pend p hpm
+  split
+  · rfl
+  · simp [hs, hsec]
+
+theorem stepF_fst_ok (f : Facts) {s : State} (h : MetaOK s) (op : Op) (hs : Safe s op) : MetaOK (stepF f s op).1 := by
+  simp only [stepF]
+  apply fixCache_ok
+  cases op with
+  | finish w ok =>
+    simp only [finishF]
+    split
+    · rw [finishChecked_eq h]; exact finish_ok h w ok
+    · exact finish_ok h w ok
+  | _ => exact step_ok f h _ hs
+
+def SafeRunF (f : Facts) : State → List Op → Prop
+  | _, [] => True
+  | s, op :: ops => Safe s op ∧ SafeRunF f (stepF f s op).1 ops
+
+/-- `C08_slot_inv` for the tree selected by `f` (copying cache, conditional rollback) -/
+theorem C08_slot_inv_F (f : Facts) (ops : List Op) : ∀ (s : State), MetaOK s → SafeRunF f s ops → MetaOK (runF f s ops) := by
+  induction ops with
+  | nil => intro s h _; exact h
+  | cons op ops ih =>
+    intro s h hs
+    simp only [runF, List.foldl_cons]
+    exact ih _ (stepF_fst_ok f h op hs.1) hs.2
+
+/-- with the conditional rollback the schedule of `C08_unsafe_breaks` keeps the counters exact -/
+theorem C08_unsafe_fixed :
+    (runF Facts.fixed (init 0) unsafeOps).vols.all (fun v => v.used == occ v.slots) = true := by decide
+
+
 end Hostd.Props.C08
